@@ -9,7 +9,9 @@ TASK = "task"
 RULE = ("programs with 1-8 requests of all kinds (compartment, raw and non-raw flow, aggregate, cumulative with start None/t0/interior, "
         "function of earlier outputs and parameters, computed value) chained to depth 4, strata filters, run with euler / rk4 / adaptive; "
         "the derived outputs are compared with the model's Derived.derivedOutputs evaluated on the same kind of trajectory, and a direct "
-        "Python re-computation of each definition from the implementation's own outputs is applied as oracle; non-trivial when >= 2 requests")
+        "Python re-computation of each definition from the implementation's own outputs is applied as oracle; (b) every second program is run "
+        "again on the same model object without rebuilding at other parameter values; (c) a whitelist made only of compartment / aggregate / cumulative "
+        "outputs whose flow / computed-value sources are not listed; non-trivial when >= 2 requests")
 TRUSTED = ["Spec.derived in lean/Summer/Spec/Derived.lean is the reading of the property's definitions"]
 ASSUMPTIONS = ["float rounding not modelled (1e-9 relative; 1e-6 for the adaptive solver's own tolerance-dependent trajectory)"]
 
@@ -17,8 +19,10 @@ def payloads(tier, seed):
     n = 90 if tier == "quick" else 1800
     return [{"seed": seed, "index": i} for i in range(n)]
 
-def direct_oracle(prog, I, py, out, payload):
+def direct_oracle(prog, I, py, out, payload, params=None, only=None):
     """re-compute every request from the implementation's own trajectory (Lean-independent)"""
+    if params is not None:
+        prog = dict(prog, params=params)
     m = I.model
     outputs = np.array(py["outputs"])
     times = np.array(m.times)
@@ -77,7 +81,7 @@ def direct_oracle(prog, I, py, out, payload):
         elif k == "cv":
             v = np.array([c[nm] for c in cvs])
         vals[nm] = v
-        if op.get("save", True) and nm in got:
+        if (op.get("save", True) or only is not None) and nm in got and (only is None or nm in only):
             if not vec_close(list(got[nm]), list(v), 1e-9):
                 fail(out, f"derived output {nm} ({k}) differs from its definition applied to the trajectory", "c08", payload,
                      request=op, got=list(map(float, got[nm])), definition=list(map(float, v)), program=prog["build"], params=prog["params"])
@@ -121,6 +125,45 @@ def task(W, payload):
             if getattr(S, "last_cut", 10**9) >= len(py["outputs"]):
                 try:
                     direct_oracle(prog, S.I, py, out, payload)
+                except BaseException as e:
+                    bump(out, "oracle_error:" + type(e).__name__)
+    # (b) the SAME model object run again, without rebuilding, at other parameter values (also the parameters only derived outputs use)
+    if payload["index"] % 2 == 0 and prog["params"]:
+        p2 = {k: q(Fr(v) * Fr(3, 2)) for k, v in prog["params"].items()}
+        # (a changed solver is ignored without a rebuild, so the runner that is reused must be an euler one)
+        S.run(prog["params"], "euler", tol=1e-9, stages=())
+        before = len(S.log)
+        py, ln = S.run(p2, "euler", tol=1e-9, stages=("S8",), rebuild=False)
+        out["evals"] += 1
+        bump(out, "second_run_no_rebuild")
+        tag_diffs(out, S, before, "c08", payload, prog, ("S8",))
+        if py.get("ok") and getattr(S, "last_cut", 10**9) >= len(py["outputs"]):
+            if nreq >= 2: out["cases"].append(h + ":second_run")
+            try:
+                S.I.runner = None
+                direct_oracle(prog, S.I, py, out, payload, params=p2)
+            except BaseException as e:
+                bump(out, "oracle_error:" + type(e).__name__)
+    # (c) a whitelist of compartment / aggregate / cumulative outputs only, whose sources (flow and computed-value outputs) are not listed
+    reqs = [op for op in prog["build"] if op["op"] == "request"]
+    byname = {op["name"]: op for op in reqs}
+    def depends_on_hidden(op, depth=0):
+        srcs = op.get("sources") or ([op["source"]] if op.get("source") else [])
+        return any(byname[s_]["kind"] in ("flow", "cv") or depends_on_hidden(byname[s_], depth + 1) for s_ in srcs if s_ in byname)
+    wl = [op["name"] for op in reqs if op["kind"] in ("comp", "agg", "cum") and (op["kind"] == "comp" or depends_on_hidden(op))]
+    if any(byname[n_]["kind"] != "comp" for n_ in wl) and not any(op["op"] == "whitelist" for op in prog["build"]):
+        S2 = fresh_session(W)
+        ops2 = prog["build"] + [{"op": "whitelist", "names": wl}]
+        if S2.build(ops2):
+            before = len(S2.log)
+            py, ln = S2.run(prog["params"], "euler", tol=1e-9, stages=("S8",))
+            out["evals"] += 1
+            bump(out, "whitelist_of_downstream_outputs")
+            tag_diffs(out, S2, before, "c08", payload, dict(prog, build=ops2), ("S8",))
+            if py.get("ok") and getattr(S2, "last_cut", 10**9) >= len(py["outputs"]):
+                out["cases"].append(h + ":whitelist")
+                try:
+                    direct_oracle(prog, S2.I, py, out, payload, only=set(wl))
                 except BaseException as e:
                     bump(out, "oracle_error:" + type(e).__name__)
     if payload["index"] == 0:
